@@ -373,7 +373,17 @@ fn op_store(ctx: &mut Ctx, op: &Value, ev: &mut Map<String, Value>) {
                     }
                 }
             }
-            let reps = std::cmp::max(1, get_u(op, "repeat")) as usize;
+            // `times`: the same search made that many times in a row before the recorded one (a long-lived store: counters,
+            // stamps and memo tables of the store and of the thread have seen tens of thousands of calls)
+            let times = std::cmp::max(1, get_u(op, "times")) as usize;
+            for _ in 1..times {
+                if let Err(msg) = guarded(|| do_search(&sb.store, &q)) {
+                    ev.insert("panic".into(), json!(msg));
+                    sb.poisoned = true;
+                    break;
+                }
+            }
+            let reps = if sb.poisoned { 0 } else { std::cmp::max(1, get_u(op, "repeat")) as usize };
             let mut all = Vec::new();
             for _ in 0..reps {
                 match guarded(|| do_search(&sb.store, &q)) {
